@@ -199,6 +199,8 @@ def scenarios(root, tier):
             [F("d/big1", 5, 1), F("d/big2", 5, 0), F("stale", 0, 2), F("same", 3, 3)], jobs=2, delete=True, max_k=40 if tier == "quick" else None)
         # a file between one pipe write (64 KiB) and one transfer chunk (256 KiB): "arrives whole or not at all" is not true of it
         add(f"{d}: mid-size file new and over an existing one", d, [F("mid", 6, 0), F("sub/mid2", 6, 3)], jobs=1, max_k=30 if tier == "quick" else None)
+        # the file in flight replaces one of the SAME SIZE (the re-run's quick check has only the mtime to go by)
+        add(f"{d}: multi-chunk and small file over same-size ones", d, [F("big", 5, 7), F("small", 1, 2)], jobs=1, max_k=30 if tier == "quick" else None)
         if tier == "thorough":
             add(f"{d}: hostile names", d, [F("with space", 1, 2), F("q'uote", 3, 0), F("new\nline", 2, 1), F("sub dir/$x", 5, 0)], jobs=8)
             add(f"{d}: single empty file over existing", d, [F("e", 4, 3)], jobs=1)
